@@ -1,6 +1,6 @@
 (* C16 - Merge always terminates, succeeds on related replicas, and keeps the tree sound.
    Statements only.  Model: db/Merge.v. *)
-From KP Require Import Bytes Outcome Tree TreeFacts History Merge MergeProofs.
+From KP Require Import Bytes Outcome Tree TreeFacts History Merge MergeProofs MergeLookup MergeTermination MergeUuids.
 
 (* History::merge_with neither panics nor fails when every item carries a modification time and
    the destination's own times are distinct *)
@@ -14,3 +14,38 @@ Theorem c16_tombstones_kept : forall now d s d' lg,
   merge now d s = Ok (d', lg) ->
   exists added, db_deleted d' = db_deleted d ++ added /\ incl added (db_deleted s).
 Proof. exact merge_tombstones_monotone. Qed.
+
+(* the group-deletion work queue never exhausts its fuel q(q+1)+1: it terminates, for every queue
+   (duplicates included) on every tree with unique UUIDs *)
+Theorem c16_deletions_terminate : forall now root deleted src_deleted,
+  uuids_unique (children_of root) -> merge_deletions now root deleted src_deleted <> OutOfFuel.
+Proof. exact merge_deletions_terminates. Qed.
+
+Theorem c16_del_groups_terminates : forall now st q fuel,
+  uuids_unique (children_of (ds_root st)) ->
+  (S (length q * S (length q)) <= fuel)%nat ->
+  del_groups fuel now st q <> OutOfFuel.
+Proof. exact del_groups_terminates. Qed.
+
+(* ... and it succeeds, keeps UUIDs unique and the root a group: no error, no panic *)
+Theorem c16_deletions_succeed : forall now root deleted src_deleted,
+  uuids_unique (children_of root) ->
+  exists root' deleted' lg,
+    merge_deletions now root deleted src_deleted = Ok (root', deleted', lg)
+    /\ uuids_unique (children_of root') /\ is_group root' = is_group root.
+Proof. exact merge_deletions_ok. Qed.
+
+(* find_node_location and the path lookup agree on trees with unique UUIDs: the location found
+   designates the group that holds the node (so the unwraps after it cannot fail) *)
+Theorem c16_location_designates : forall u root loc,
+  uuids_unique (children_of root) ->
+  fnl_db u (children_of root) = Some loc ->
+  exists pi pc, find_group loc root = Some (pi, pc)
+    /\ exists n, In n pc /\ uuid_of n = u /\ find (fun c => N.eqb (uuid_of c) u) pc = Some n.
+Proof. exact fnl_db_find_group. Qed.
+
+(* conservation: the merge invents no node - every UUID of the result was in the destination or in the source *)
+Theorem c16_no_new_uuids : forall now d s d' lg,
+  merge now d s = Ok (d', lg) ->
+  incl (tree_uuids (db_root d')) (tree_uuids (db_root d) ++ tree_uuids (db_root s)).
+Proof. exact merge_no_new_uuids. Qed.
